@@ -191,6 +191,22 @@ PROPS["C07"] = {
     "technique": "Lean 4 invariant proof over a cache in front of a recursive resolver (Inv preserved; soundness/completeness w.r.t. an inductive inlining relation); model=code by differential runs through parser.Parse; inlining equivalence on the implementation",
 }
 
+PROPS["C20"] = {
+    "lean_modules": ["Ogen.Props.C20"],
+    "suites": ["c20"],
+    "facts": ["cli"],
+    "trusted_base": [
+        KERNEL, HARNESS,
+        "the fact translator harness/cmd/extract (go/ast over cmd/ogen/main.go): Ogen/Generated/Facts_cli.lean is regenerated on every run — source order of the calls in generate() and cleanDir's literal suffix/prefix lists; theorems facts_order_ok, facts_filter_eq, facts_no_recursive_remove are stated over it",
+        "statements in lean/Ogen/Props/C20.lean; model Cli.run/cleanDir/writeFiles (Ogen/CliStages_proof.lean) hand-written; second tie = the built cmd/ogen binary run for 13 stages × 5 target states × {--clean, no --clean}, top-level outcome compared with the model, recursive snapshots checked on the implementation",
+        "NOT modelled: OS semantics (permissions, read-only files, partial writes after writing started), what gen.NewGenerator itself writes (expand: — known finding K6)",
+    ],
+    "assumptions": ["every pre-write failure stage happens before gen.NewGenerator returns (checked per stage against the binary)"],
+    "level_text": "partial (CLI state machine): prewrite_failure_untouched for every directory state and both --clean values, clean_only_own, others_survive — with the stage order and the cleanDir filter taken from facts regenerated from the source on every run (facts_order_ok, facts_filter_eq) and the whole machine compared with the built binary; K6 is the recorded exception",
+    "level_note": "trusted: Lean kernel, statements, the go/ast fact translator, stage model + binary tie. Known finding K6.",
+    "technique": "Lean 4 proof over a stage-machine model whose stage order and file filter are regenerated from cmd/ogen/main.go by a go/ast translator; differential runs against the built binary with recursive directory snapshots",
+}
+
 # properties not claimed, with the reason (kept current; see DESIGN.md §7)
 NOT_CLAIMED = {
     "C10": "not applicable: determinism/race-freedom of generation lives in Go map iteration order, goroutine scheduling and the memory model; no executable model separate from the runtime can express it (DESIGN.md §7)",
